@@ -264,4 +264,21 @@ def readOutbound (o : OutOracle) (ls : List Bytes) : List Effect := ls.flatMap (
 /-- every line is in the domain of C04 (well-formed or non-grammar) -/
 def inDomainLines (o : OutOracle) (ls : List Bytes) : Bool := ls.all (fun l => readLine o l != .outside)
 
+/-! ### lines outside the domain inside a batch: no line changes what its neighbours denote
+
+The grammar assigns no meaning to a line with a grammar keyword / key and arguments that do not parse (`_panelType=Foo`,
+`EnvironmentalHealth=Weird`, `HWC#5=Enc` …): `readLine = .outside`.  What the property still fixes for a batch containing
+such lines: "exactly the events and values … each line [denotes], in line order" — every line denotes what it denotes on
+its own, whatever stands before or after it.  `readOutboundWith o alone` reads a batch taking for an outside line the
+effects `alone l` that line has as a one-line batch (for the check: what the decoder under test returns for `[l]`; for
+the theorem `C04.decOut_context_free`: what the decoder model returns). -/
+
+def readLineWith (o : OutOracle) (alone : Bytes → List Effect) (l : Bytes) : List Effect :=
+  match readLine o l with
+  | .outside => alone l
+  | c => c.effects
+
+def readOutboundWith (o : OutOracle) (alone : Bytes → List Effect) (ls : List Bytes) : List Effect :=
+  ls.flatMap (readLineWith o alone)
+
 end RawPanelVerif.Spec.Out
